@@ -65,6 +65,7 @@ def setup(rep, tier):
     rep.minimum('R18.9', 2)
     rep.minimum('R18.10', 1)
     rep.minimum('R18.11', 2)
+    rep.minimum('R18.12', 1)
 
 
 def within(v, lo, hi):
@@ -1024,7 +1025,52 @@ def r18_11(rep, prog):
     return n
 
 
+# ------------------------------------------------------------------ R18.12
+def r18_12(rep, prog):
+    """the decoder's first-frame flag is dropped only once a frame's parameters have been decoded.  While
+    `first_frame_after_reset` is set, `silk_decode_parameters` does not interpolate with the previous NLSF vector and the
+    pitch lag is not coded relative to the previous one - that history does not exist yet.  The function that establishes
+    the history is found by what it does (it stores `prevNLSF_Q15`); every path from the entry of a decoder function to a
+    store of 0 into the flag must pass through a call to it (must-pass-through on the CFG).  A clear that is also reached
+    on the concealment path lets the next real frame interpolate with, and predict from, parameters that were never decoded."""
+    hist = set()
+    for f in prog.functions_all:
+        if not f.file.startswith('silk/') or 'enc' in f.file.split('/')[-1].lower():
+            continue
+        for x in f.all_nodes():
+            tgt = None
+            if x[0] == 'assign':
+                tgt = x[1]
+            elif x[0] == 'call' and sx.callee_name(x) in ('memcpy', 'memmove') and x[2]:
+                tgt = x[2][0]
+            if tgt is not None and any(sx.kind(y) == 'field' and y[3] == 'prevNLSF_Q15' for y in sx.walk(tgt)):
+                hist.add(f.name)
+    n = 0
+    for f in prog.functions_all:
+        if not f.file.startswith('silk/') or f.name in hist or 'enc' in f.file.split('/')[-1].lower() or '/float/' in f.file or '/fixed/' in f.file:
+            continue        # the encoder keeps a flag of the same name in its own state
+        cf = None
+        for bid, st in f.stmts():
+            if sx.kind(st) == 'assign' and sx.kind(sx.strip(st[1])) == 'field' and sx.strip(st[1])[3] == 'first_frame_after_reset' and sx.int_val(sx.strip(st[2])) == 0:
+                root = sx.strip(st[1])[1]
+                cf = cf or cfgm.CFG(f)
+                through = set(b for b, i, c in cf.find(lambda y: y[0] == 'call' and sx.callee_name(y) in hist))
+                n += 1
+                inst = '%s:%s clears first_frame_after_reset only after a frame\'s parameters were decoded' % (prog.config, f.name)
+                where = '%s:%s' % (f.file, sx.line(st))
+                rep.functions.add(f.name)
+                if not hist:
+                    rep.unresolved('R18.12', inst + ': no function storing prevNLSF_Q15 found')
+                elif through and (bid in through or cf.must_pass(cf.entry, {bid}, through)):
+                    rep.holds('R18.12', inst, where, 'every path to the store passes a call to %s' % ', '.join(sorted(hist)))
+                else:
+                    rep.violated('R18.12', inst, where, 'some path reaches this store without a call to %s (the function that stores prevNLSF_Q15): after a reset followed by a lost frame the flag is already down, and the first decoded frame interpolates its NLSFs with, and predicts its lag from, history that was never decoded' % ', '.join(sorted(hist)),
+                                 key='%s:first-frame-flag' % f.name)
+    return n
+
+
 def check(rep, prog, tier):
+    r18_12(rep, prog)
     r18_11(rep, prog)
     r18_10(rep, prog)
     r18_7(rep, prog)
